@@ -1,0 +1,10 @@
+//go:build verif
+
+package service
+
+import "github.com/ludo-technologies/pyscn/internal/analyzer"
+
+// VerifCalculateMaxDepth exposes calculateMaxDepth to the verification driver.
+func VerifCalculateMaxDepth(graph *analyzer.DependencyGraph) int {
+	return NewSystemAnalysisService().calculateMaxDepth(graph)
+}
